@@ -30,7 +30,7 @@ CLAIMED = {
         "exhaustive enumeration (itertools.product) of the kind(value) x target type x embedding context matrix (12 contexts, incl. constructor and __replace__ calls that give several fields at once) against a hand-written kind-compatibility table",
         "All cells of 42 value instances (13 kinds) x 59 target types x 12 contexts are evaluated on every run: a value whose kind the "
         "target's family does not admit must raise ConvertError in every context; admitted cells are decided by the reference interpreter. "
-        "Exhaustive over this matrix, not over all values. Type variables met unsubstituted (bound to a class, a union, an Optional, a List; constrained) are among the targets. Suite equal-across-kinds: lists of values that are equal across kinds (1, 1.0, True) against set, list and tuple targets. Suite under-stock-handlers: the whole table in five contexts with custom={int:, float:, str:} holding the library's own converters for exactly those types (an entry serves its own type only).",
+        "Exhaustive over this matrix, not over all values. Type variables met unsubstituted (bound to a class, a union, an Optional, a List; constrained) are among the targets. Suite equal-across-kinds: lists of values that are equal across kinds (1, 1.0, True) against set, list and tuple targets. Suite under-stock-handlers: the whole table in five contexts with custom={int:, float:, str:} holding the library's own converters for exactly those types (an entry serves its own type only). Suite default-equal: arguments of another kind that equal the field's default (0.0 for an int field defaulting to 0) on four paths.",
         "Trusts the kind table in pv/props/c02.py (taken from the statement and docs/index.md); bool -> number and ==-matching literal cells are unspecified.",
         "DESIGN.md section 5, C02",
     ),
@@ -39,7 +39,7 @@ CLAIMED = {
         "For every generated (type, value) and every (sub-type, sub-value) reached by walking the value, the fast pass raises "
         "ParseInterrupt iff the diagnostic pass returns an error tree, and convert() never raises the 'bug of the Converter' RuntimeError. "
         "A third suite feeds the condition grammar of C13 (conditions must see the converted value in both passes). "
-        "Suite extension-points: a union built with a refusing constructor by a _converter hook, and a default factory that raises; suite equal-across-kinds: both passes on lists of values equal across kinds. Extension points also hold two user sequence types (one whose constructor wants a length, one that validates). The evidence lists which converter classes were exercised and how often.",
+        "Suite extension-points: a union built with a refusing constructor by a _converter hook, and a default factory that raises; suite equal-across-kinds: both passes on lists of values equal across kinds. Extension points also hold two user sequence types (one whose constructor wants a length, one that validates) and date / time objects of subclasses against the three temporal targets. The evidence lists which converter classes were exercised and how often.",
         "No reference model needed; trusts only the walk of (sub-type, sub-value) pairs in pv/tg.py. User-written converter classes are out of scope.",
         "DESIGN.md section 5, C03",
     ),
@@ -118,7 +118,7 @@ CLAIMED = {
         "Hypothesis generation of variant sets x three layouts x tag/body/shape mutations; reference implementation of docs/using/tagged.md as oracle, metamorphic body-error oracle, round-trip of the layout; enumeration of duplicate-tag definitions",
         "The variant is decided by the tag alone (instance of the variant whose declared tag equals the data's tag, even when other variants accept the "
         "body), a body error equals the selected variant's own tree, unknown/absent/ill-kinded tags are ConvertErrors naming the tag, duplicate tag values "
-        "are refused with TypeError when the converter is built, and into_data writes exactly the layout from_data reads. Variants that override an inherited tag field are refused or dispatched by the tag their instances carry.",
+        "are refused with TypeError when the converter is built, and into_data writes exactly the layout from_data reads. Variants that override an inherited tag field are refused or dispatched by the tag their instances carry. Suite undeclared-tag-instance: data carrying a tag no variant declares is refused, with the same text, before and after an instance holding that tag was serialised.",
         "Trusts the tagged-union reference in pv/cg.py (TaggedNode). Tags equal to a declared tag but of another type are unspecified.",
         "DESIGN.md section 5, C12",
     ),
@@ -128,7 +128,7 @@ CLAIMED = {
         "predicates, shape/broadcastable) over scalar, sized, array and nested inner types, with values at, next to and away from every threshold: "
         "accept iff the inner type accepts and the independent evaluator holds; the value is returned unchanged; a raising predicate yields ConvertError "
         "with a cause; into_data ignores conditions. Pairs of expressions that read alike when flattened but nest differently sit in one type "
-        "(each position must enforce its own predicate); the stock conditions x combinators x boundary values table (real and complex values) and the shipped aliases are enumerated; suite custom-annotation places conditions before and after a ConvertAnnotation that is not a condition; suite predicate-answers: answers that are not bools count by their truth, an answer without a truth value (several-element array, raising __bool__) is a failed condition with a cause.",
+        "(each position must enforce its own predicate); the stock conditions x combinators x boundary values table (real and complex values) and the shipped aliases are enumerated; suite custom-annotation places conditions before and after a ConvertAnnotation that is not a condition; suite predicate-answers: answers that are not bools count by their truth, an answer without a truth value (several-element array, raising __bool__) is a failed condition with a cause; suite emptiness: Empty / NonEmpty go by length on arrays and on a container with a __bool__ of its own.",
         "Trusts the evaluator in pv/tg.py (cond_eval, 6-line broadcasting rule) and Python comparison semantics.",
         "DESIGN.md section 5, C13",
     ),
@@ -153,7 +153,7 @@ CLAIMED = {
         "Every (eq, order, frozen, unsafe_hash, explicit __hash__, user __eq__) point is built both as a pane dataclass and as a standard "
         "dataclass and must land in the same hash category; equality/ordering are checked against the compare-fields model (reflexive, symmetric, "
         "transitive on triples, lexicographic, trichotomy, eq implies equal hash); frozen, copy, deepcopy, __replace__ and repr are checked against the model; "
-        "generated hash / modify / copy / set-lookup histories over five legitimately mutable configurations require equal instances to hash equal at every moment. Suite partial-order: float (NaN) / FrozenSet / int fields, the four operators against the lexicographic definition; copy of an instance with an unset init=False field; an instance holding NaN equals itself and its copies; suite frozen-chains: the frozen option along inheritance chains.",
+        "generated hash / modify / copy / set-lookup histories over five legitimately mutable configurations require equal instances to hash equal at every moment. Suite partial-order: float (NaN) / FrozenSet / int fields, the four operators against the lexicographic definition; copy of an instance with an unset init=False field; an instance holding NaN equals itself and its copies; suite frozen-chains: the frozen option along inheritance chains. Suite repr-after-failure: a repr that raised earlier leaves nothing behind.",
         "Trusts the standard library's dataclass hash table as the reference. Field values are totally ordered and NaN-free except in suite partial-order.",
         "DESIGN.md section 5, C16",
     ),
@@ -161,7 +161,7 @@ CLAIMED = {
         "Hypothesis generation of class-hierarchy programs (grammar over levels, overrides, KW_ONLY, options, generic binding/forwarding/permutation/re-declaration); hierarchy model oracle on signature, parameters, field order, substituted-type enforcement, option inheritance",
         "Programs of depth 1-4 are executed with types.new_class; at every level __parameters__ and inspect.signature (names, kinds, annotations "
         "after normalisation, defaults) must equal the model, ill-formed programs must be refused with TypeError; the subscripted leaf must "
-        "enforce substituted field types (accept one instantiation's values, refuse another's) and inherit in_format, rename, allow_extra, kw_only, frozen and class-level custom handlers from the nearest definition. Suite union-fields: Union[int, str, T]-shaped fields whose argument repeats a member (five shapes x seven arguments, subscripted or inherited from) lose the variable, de-duplicate in order and enforce what is left. Suite literal-arguments: Literal arguments that are equal without being the same type (1 / True, 0 / False) give different parametrizations, in either order.",
+        "enforce substituted field types (accept one instantiation's values, refuse another's) and inherit in_format, rename, allow_extra, kw_only, frozen and class-level custom handlers from the nearest definition. Suite union-fields: Union[int, str, T]-shaped fields whose argument repeats a member (five shapes x eight arguments incl. None, subscripted or inherited from) lose the variable, de-duplicate in order and enforce what is left. Suite literal-arguments: Literal arguments that are equal without being the same type (1 / True, 0 / False) give different parametrizations, in either order.",
         "Trusts the hierarchy model in pv/props/c17.py (substitution on a small type AST). Single-inheritance chains only.",
         "DESIGN.md section 5, C17",
     ),
@@ -170,7 +170,7 @@ CLAIMED = {
         "Every source converts the marker type to a value naming the source; the observed label at each position (direct field, List, Dict, Optional, "
         "Tuple, nested dataclass, subclass, top-level container, inside a third-party generic container served by a registered handler, untyped positions on output) and in three directions (from_data, into_data, construction of the containing class) must be the first present source in the documented order; "
         "declining handlers (NotImplemented / NotImplementedError) are skipped; mapping-form handlers match only the exact unparameterised type; "
-        "global handlers sit after the scalar built-ins and the protocol, before structural built-ins. Also: construction of the enclosing class (ctor-outer), converters that read the data form only (strict) on output through unions, a handler for the type of an enum's values in both directions, reader-only converters at depth 0, one handler object in two roles, three nesting levels sharing handler objects.",
+        "global handlers sit after the scalar built-ins and the protocol, before structural built-ins. Also: construction of the enclosing class (ctor-outer) and __replace__ on it (replace-outer), converters that read the data form only (strict) on output through unions, a handler for the type of an enum's values in both directions, reader-only converters at depth 0, one handler object in two roles, three nesting levels sharing handler objects.",
         "A fresh marker class per case keeps the converter cache out of the picture; one global dispatcher is registered per process.",
         "DESIGN.md section 5, C18",
     ),
@@ -186,7 +186,7 @@ CLAIMED = {
     'C20': (
         "exhaustive enumeration of a finite name set + Hypothesis search, against an independent canonical renderer",
         "Every 1-3 word name over a 3-letter alphabet (47 988 names) is swept exhaustively through all 5 styles and all 25 style "
-        "pairs, including injectivity per style; longer names, names over Latin-1 / Cyrillic / Greek letters with a one-to-one case mapping, ill-formed names and the dataclass-level observations (fields with aliases= / in_names= among them) are searched "
+        "pairs, including injectivity per style; longer names, names over Latin-1 / Cyrillic / Greek letters with a one-to-one case mapping, ill-formed names and the dataclass-level observations (fields with aliases= / in_names= among them; dict(rename=) also with set_only=True) are searched "
         "with Hypothesis. Held-on-everything-explored, not a proof for all identifiers.",
         "Trusts the 3-line reference renderer in pv/props/c20.py and Python's str methods; letters whose case mapping is not one-to-one (sharp s, dotless i, Greek sigma) are outside the domain.",
         "DESIGN.md section 5, C20",
